@@ -626,7 +626,9 @@ def run(chk: Check):
     chk.floor("A7-associativity", 12)
     chk.floor("A8-precedence-ladder", 13)
     chk.floor("A9-argument-layout", 7)
-
+    from .c12 import rule_source_verbatim
+    from ..pyflow import Index as _Ix
+    rule_source_verbatim(chk, _Ix())   # spans and error text refer to the caller's text
 
 class _BlankEnv:
     """Finite-domain environment for Tokenizer.is_blank: evaluates the expressions the function is made of."""
